@@ -46,9 +46,18 @@ def build(o):
     raise ValueError(k)
 
 
-def prime(x):
-    """queries that make the library compute (and possibly cache) derived state of x: hash, ==, edges, measures"""
+def prime(x, partner=None):
+    """queries that make the library compute (and possibly cache) derived state of x: hash, ==, edges, measures; with a partner,
+    also every binary query of the pair in both orders and both call forms"""
     probe = Line(Point(0.25, -0.5, 0.75), Vector(1.0, 2.0, 3.0))
+    if partner is not None:
+        for f in (lambda: intersection(x, partner), lambda: intersection(partner, x), lambda: x.intersection(partner), lambda: partner.intersection(x),
+                  lambda: distance(x, partner), lambda: distance(partner, x), lambda: x.distance(partner), lambda: x in partner, lambda: partner in x,
+                  lambda: x == partner, lambda: partner == x, lambda: angle(x, partner), lambda: parallel(x, partner), lambda: orthogonal(partner, x)):
+            try:
+                f()
+            except Exception:
+                pass
     for f in (lambda: hash(x), lambda: x == x, lambda: x.segments(), lambda: x.length(), lambda: x.area(), lambda: x.volume(),
               lambda: x.points[0] in x, lambda: repr(x), lambda: x.general_form(), lambda: x.parametric(), lambda: x.point_normal(),
               lambda: intersection(probe, x), lambda: intersection(x, Plane(Point(0.5, 0.25, -1.0), Vector(2.0, -1.0, 1.0))),
@@ -59,13 +68,13 @@ def prime(x):
             pass
 
 
-def build_via_move(o, t, primed=True):
+def build_via_move(o, t, primed=True, partner=None):
     """the same object, arrived at by an in-place move: built at o - t, queried once (so that any derived state is
     populated), then moved by t in place; the RECEIVER is returned.  Lattice t: the translated coordinates are exact floats."""
     from . import gen
     x = build(gen.translate_obj(o, tuple(-c for c in t)))
     if primed:
-        prime(x)
+        prime(x, partner)
     x.move(Vc(t))
     return x
 
